@@ -85,6 +85,7 @@ type Frame struct {
 	caller   *Frame
 	recoverNil bool
 	noInv      bool
+	undefArbitrary bool // spec names without a value at the evaluation point denote an arbitrary value
 	entryPtr   *State
 	privStruct map[ssa.Value]string
 	privAlias  map[ssa.Value]string
